@@ -11,7 +11,15 @@ size_t strlen(const char *s){ size_t n = 0; while (s[n] != 0) n++; return n; }
 size_t strnlen(const char *s, size_t m){ size_t n = 0; while (n < m && s[n] != 0) n++; return n; }
 char *strcpy(char *d, const char *s){ size_t i = 0; while ((d[i] = s[i]) != 0) i++; return d; }
 char *strcat(char *d, const char *s){ size_t n = strlen(d); size_t i = 0; while ((d[n + i] = s[i]) != 0) i++; return d; }
-char *strncpy(char *d, const char *s, size_t n){ size_t i = 0; while (i < n && s[i] != 0) { d[i] = s[i]; i++; } while (i < n) { d[i] = 0; i++; } return d; }
+/* strncpy: the copied prefix and the first padding NUL are exact.  The REST of the zero padding is NOT written: a padding
+   loop or a symbolic-length havoc over a 4 KiB array makes the SAT encoding intractable (probed: >10 min for 4-byte inputs).
+   Every destination in the bounded runs is an uninitialised stack/heap buffer, whose bytes cbmc already treats as arbitrary,
+   so "arbitrary" over-approximates "zero" there; recorded as an assumption of pack C. */
+char *strncpy(char *d, const char *s, size_t n){
+  size_t i = 0;
+  while (i < n && s[i] != 0) { d[i] = s[i]; i++; }
+  if (i < n) { __CPROVER_assert(__CPROVER_w_ok(d, n), "strncpy: n does not exceed the destination"); d[i] = 0; }
+  return d; }
 int strcmp(const char *a, const char *b){ size_t i = 0; while (a[i] != 0 && a[i] == b[i]) i++; return (int)(unsigned char)a[i] - (int)(unsigned char)b[i]; }
 int strncmp(const char *a, const char *b, size_t n){ size_t i = 0; if (n == 0) return 0; while (i + 1 < n && a[i] != 0 && a[i] == b[i]) i++; return (int)(unsigned char)a[i] - (int)(unsigned char)b[i]; }
 static int verif_lower(int c){ return (c >= 'A' && c <= 'Z') ? c + 32 : c; }
